@@ -3,7 +3,7 @@
    interleaving of Emit, Register, Cancel i, Forward i, Push i, Read i,
    StopBegin, StopEnd) from the initial state. *)
 From Coq Require Import ZArith List Bool Arith Lia.
-From Verif Require Import C11.Model C11.Spec C11.Proofs.
+From Verif Require Import C11.Model C11.Spec C11.Proofs C11.ModelK C11.ProofsK.
 Import ListNotations.
 
 (* Conservation, for every interleaving: for a subscriber that has not been
@@ -162,6 +162,125 @@ Theorem C11_fair_reader_receives_everything : forall sched i s0 t0 u,
        got u' = backlog u ++ skipn (reg_at u) (emitted (run_sched sched T s0))).
 Proof. exact fair_reader_receives_everything. Qed.
 Print Assumptions C11_fair_reader_receives_everything.
+
+(* ------------------------------------------------------------------ *)
+(* Subscriber identity (ModelK.v).  The theorems above identify a subscriber
+   by its position in the registration order.  manager.go identifies it by
+   the uint64 id that NewSubscription takes in the CALLER's goroutine
+   (atomic.AddUint64) before the handler sees the request; the handler stores
+   it in a map, Cancel looks it up, fan-out and Stop range over the map.  A
+   keyed run `krun kacts kinit` is any interleaving of KSubCall (id taken),
+   KSubHandled k b (the handler reads backlog b and registers the k-th call
+   in progress, one handler step), KSubFailed k, KCancel i (by id), KEmit,
+   pipeline steps and Stop: any number of NewSubscription calls overlap.
+   `calls kacts < two64`: fewer than 2^64 NewSubscription calls (the counter
+   is a uint64 and wraps). *)
+
+(* No two subscriptions, pending (id taken, request queued or being handled)
+   or registered (open or cancelled), share an id. *)
+Theorem C11_ids_unique : forall kacts,
+  (calls kacts < two64)%Z ->
+  NoDup (sids (krun kacts kinit) ++ pend (krun kacts kinit)).
+Proof. exact ids_unique. Qed.
+Print Assumptions C11_ids_unique.
+
+(* The map store of handleNewSubscription never replaces an entry: whichever
+   pending call the handler takes next, its id is not a key of the map. *)
+Theorem C11_insert_never_overwrites : forall kacts k id,
+  (calls kacts < two64)%Z -> ph (base (krun kacts kinit)) <> Stopped ->
+  nth_error (pend (krun kacts kinit)) k = Some id ->
+  klookup id (kmap (krun kacts kinit)) = None /\
+  kinsert id (length (subs (base (krun kacts kinit)))) (kmap (krun kacts kinit)) =
+    (id, length (subs (base (krun kacts kinit)))) :: kmap (krun kacts kinit).
+Proof. exact insert_never_overwrites. Qed.
+Print Assumptions C11_insert_never_overwrites.
+
+(* The map is exactly the set of open subscribers, each under its own id. *)
+Theorem C11_map_is_open_set : forall kacts id j,
+  (calls kacts < two64)%Z -> ph (base (krun kacts kinit)) <> Stopped ->
+  (klookup id (kmap (krun kacts kinit)) = Some j <->
+   nth_error (sids (krun kacts kinit)) j = Some id /\ open_at (krun kacts kinit) j).
+Proof. exact map_is_open_set. Qed.
+Print Assumptions C11_map_is_open_set.
+
+(* Refinement: every keyed step is the index-based step of Model.v (abs_act:
+   KSubHandled = Register, KCancel i = Cancel i, KSubCall / KSubFailed = no
+   step, the others by name): the lookup by id finds subscriber i itself,
+   ranging over the map reaches exactly the open subscribers ... *)
+Theorem C11_keyed_step_refines : forall kacts a,
+  (calls kacts < two64)%Z ->
+  base (kstep (krun kacts kinit) a) = run (abs_act (krun kacts kinit) a) (base (krun kacts kinit)).
+Proof. exact keyed_step_refines. Qed.
+Print Assumptions C11_keyed_step_refines.
+
+(* ... so every keyed run, with any overlap of NewSubscription calls, is a run
+   of Model.v, and every theorem above about `reachable s` holds for it. *)
+Theorem C11_keyed_refines_indexed : forall kacts,
+  (calls kacts < two64)%Z ->
+  base (krun kacts kinit) = run (abs_acts kacts kinit) init /\
+  reachable (base (krun kacts kinit)).
+Proof. intros kacts H. split; [apply keyed_refines, H | apply keyed_reachable, H]. Qed.
+Print Assumptions C11_keyed_refines_indexed.
+
+Theorem C11_conservation_overlapping : forall kacts i u,
+  (calls kacts < two64)%Z ->
+  nth_error (subs (base (krun kacts kinit))) i = Some u -> closed u = false ->
+  alive (ph (base (krun kacts kinit))) = true ->
+  delivered u ++ in_flight u = backlog u ++ skipn (reg_at u) (emitted (base (krun kacts kinit))).
+Proof. intros kacts i u H. apply conservation_live, keyed_reachable, H. Qed.
+Print Assumptions C11_conservation_overlapping.
+
+Theorem C11_prefix_overlapping : forall kacts i u,
+  (calls kacts < two64)%Z ->
+  nth_error (subs (base (krun kacts kinit))) i = Some u ->
+  is_prefix (delivered u ++ ch u) (backlog u ++ skipn (reg_at u) (emitted (base (krun kacts kinit)))).
+Proof. intros kacts i u H. apply prefix_always, keyed_reachable, H. Qed.
+Print Assumptions C11_prefix_overlapping.
+
+(* Cancel() of client i closes subscriber i and touches nobody else (with
+   C11_cancel_touches_only_its_subscriber), Stop closes everybody. *)
+Theorem C11_cancel_by_id_hits_own : forall kacts i,
+  (calls kacts < two64)%Z ->
+  base (kstep (krun kacts kinit) (KCancel i)) = step (base (krun kacts kinit)) (Cancel i).
+Proof. exact keyed_cancel_own. Qed.
+Print Assumptions C11_cancel_by_id_hits_own.
+
+Theorem C11_stop_closes_all_overlapping : forall kacts,
+  (calls kacts < two64)%Z -> ph (base (krun kacts kinit)) <> Stopped ->
+  ph (base (krun (kacts ++ [KStopBegin; KStopEnd]) kinit)) = Stopped /\
+  Forall (fun u => closed u = true) (subs (base (krun (kacts ++ [KStopBegin; KStopEnd]) kinit))).
+Proof. exact keyed_stop_closes_all. Qed.
+Print Assumptions C11_stop_closes_all_overlapping.
+
+Theorem C11_admissible_sound_overlapping : forall kacts i u o,
+  (calls kacts < two64)%Z ->
+  nth_error (subs (base (krun kacts kinit))) i = Some u -> obs_of u o ->
+  admissible (emitted (base (krun kacts kinit))) o = true.
+Proof. intros kacts i u o H. apply admissible_sound, keyed_reachable, H. Qed.
+Print Assumptions C11_admissible_sound_overlapping.
+
+(* Non-vacuity of the keyed layer.  Three calls overlap (ids 1 2 3), the
+   handler takes the second first; a fourth call starts while two are in
+   progress; one call fails; Cancel of client 1 (id 3) closes subscriber 1
+   only.  Contrast: from a state in which two calls in progress carry the
+   SAME id (what `Load(&counter)+1` instead of the fetch-and-add hands out to
+   overlapping calls; not reachable here) the second registration replaces
+   the first: subscriber 0 never receives event 5, its Cancel closes
+   subscriber 1, and Stop leaves subscriber 0 open. *)
+Definition exk_acts : list kact :=
+  [KSubCall; KSubCall; KSubCall; KSubHandled 1 [100; 101]%Z; KEmit 1%Z []; KSubHandled 1 [];
+   KSubCall; KEmit 2%Z []; KSubFailed 0; KSubHandled 0 [7%Z]; KCancel 1; KEmit 3%Z []].
+Definition exk_collide : list kact :=
+  [KSubHandled 0 []; KSubHandled 0 []; KEmit 5%Z []; KCancel 0; KEmit 6%Z []; KStopBegin; KStopEnd].
+Example C11_keyed_nonvacuous :
+  (let s := krun exk_acts kinit in
+   sids s = [2; 3; 4]%Z /\ kmap s = [(4%Z, 2); (2%Z, 0)] /\ pend s = [] /\ counter s = 4%Z /\
+   map (fun u => (pushed u, closed u)) (subs (base s))
+     = [([100; 101; 1; 2; 3]%Z, false); ([2%Z], true); ([7; 3]%Z, false)]) /\
+  (let s := krun exk_collide (mkK init [] [] 0%Z [1; 1]%Z 2%Z) in
+   sids s = [1; 1]%Z /\ ph (base s) = Stopped /\
+   map (fun u => (pushed u, closed u)) (subs (base s)) = [([], false); ([5%Z], true)]).
+Proof. vm_compute. repeat split; reflexivity. Qed.
 
 (* Non-vacuity: a subscriber that never reads accumulates 27 notifications
    (more than channel + queue buffer) while a prompt one has received all 25
